@@ -409,12 +409,23 @@ def _run(prop, tier, seed, args, scratch, t_start):
         if r["status"] == "undecided":
             undecided.append({"unit": r["unit"], "job": r["job"], "detail": r["detail"]})
         elif r["status"] == "fail":
+            n_known = 0
             for f in r["failed"]:
                 k = match_known(known, prop, r["unit"], r["job"], f)
                 if k:
                     known_hits.append((k, r, f))
+                    n_known += 1
                 else:
                     violations.append((r, f))
+            if n_known:
+                # an obligation recorded as a known finding is not part of what this run claims as discharged: it is taken out of the
+                # obligation count and reported under coverage.known_finding_obligations / known_findings_reported instead
+                if r["kind"] == "proved":
+                    proved_obl -= n_known
+                else:
+                    bounded_obl -= n_known
+                per_job[-1]["obligations"] -= n_known
+                per_job[-1]["known_finding_obligations"] = n_known
 
     # ---- report
     rc = 0
@@ -507,6 +518,7 @@ def write_evidence(prop, tier, seed, units, gen, per_job, results, po, pk, bo, b
                          "reachable": sum(1 for r in results if r["canary"] and r["status"] == "ok")},
             "undecided": undecided,
             "known_findings_reported": sorted(set(k.get("what", "") for (k, _, _) in known_hits)),
+            "known_finding_obligations": len(known_hits),
             "samples": samples,
             "solver_seconds_total": round(sum(r["secs"] for r in results), 1),
             "explanation": "Each job = goto-cc on the C text extracted from /repo on this run, goto-instrument --dfcc contract "
